@@ -69,14 +69,14 @@ class Coll(Generic[T]):
     def size(self) -> int: ...
 class Sub(Coll[U]):
     def second(self) -> U: ...
-class JetColl(Coll["Jet"]):
-    def leading(self) -> Jet: ...
 class Jet:
     def pt(self) -> float: ...
     def ntrk(self) -> int: ...
     def trks(self) -> Iterable[Trk]: ...
     def tcoll(self) -> Coll[Trk]: ...
     def good(self) -> bool: ...
+class JetColl(Coll[Jet]):
+    def leading(self) -> Jet: ...
 class Ev:
     def a(self) -> float: ...
     def n(self) -> int: ...
@@ -190,11 +190,22 @@ class Ev:
 })
 
 
+_LOADS = [0]
+
+
 def load(name):
+    """exec the model in a real (registered) module so that typing.get_type_hints can resolve
+    the string annotations of its classes"""
+    import sys
+    import types
+
     src, desc = MODELS[name]
-    g = {}
-    exec(src, g)
-    return g, desc
+    _LOADS[0] += 1
+    modname = f"fadlmc_model_{name}"
+    mod = types.ModuleType(modname)
+    sys.modules[modname] = mod
+    exec(src, mod.__dict__)
+    return mod.__dict__, desc
 
 
 def elem(t):
